@@ -69,9 +69,9 @@ def element(item):
     elif s == 'complex_current_source':
         e = elm.ComplexCurrentSource(I=cx(a['I']), name=name, reverse=rev)
     elif s == 'ac_voltage_source':
-        e = elm.ACVoltageSource(V=a['V'], w=a['w'], phi=a['phi'], name=name, deg=a.get('deg', False), reverse=rev)
+        e = elm.ACVoltageSource(V=a['V'], w=a['w'], phi=a['phi'], name=name, deg=a.get('deg', False), sin=a.get('sin', False), reverse=rev)
     elif s == 'ac_current_source':
-        e = elm.ACCurrentSource(I=a['I'], w=a['w'], phi=a['phi'], name=name, deg=a.get('deg', False), reverse=rev)
+        e = elm.ACCurrentSource(I=a['I'], w=a['w'], phi=a['phi'], name=name, deg=a.get('deg', False), sin=a.get('sin', False), reverse=rev)
     elif s in ('rect_voltage_source', 'tri_voltage_source', 'saw_voltage_source'):
         cls = {'rect': elm.RectVoltageSource, 'tri': elm.TriangleVoltageSource, 'saw': elm.SawtoothVoltageSource}[s[:s.index('_')]]
         e = cls(V=a['V'], w=a['w'], phi=a['phi'], name=name, deg=a.get('deg', False), reverse=rev)
@@ -104,7 +104,8 @@ def component_of(item, n1, n2):
     s, a, name = item['sym'], item.get('args', {}), item['name']
     rev = item.get('reverse', False)
     nodes = [n2, n1] if (rev and (s in SOURCES_V or s in SOURCES_I)) else [n1, n2]
-    ph = lambda: (a['phi'] * math.pi / 180 if a.get('deg') else a['phi'])
+    # a sine-referenced source A*sin(wt+phi) is the cosine A*cos(wt+phi-pi/2) (generated with phi in radians only)
+    ph = lambda: (a['phi'] * math.pi / 180 if a.get('deg') else a['phi']) - (math.pi / 2 if a.get('sin') else 0.0)
     if s == 'resistor':
         return {'kind': 'resistor', 'id': name, 'nodes': nodes, 'args': {'R': a['R']}}
     if s == 'conductance':
@@ -264,7 +265,10 @@ def symbol_args(draw, s, w0):
     deg = draw(st.booleans())
     phi = draw(st.sampled_from([0.0, 30.0, -90.0, 45.0, 180.0, 400.0])) if deg else draw(cc.phase)
     amp = draw(gen.signed_real(-1, 2)) if 'voltage' in s else draw(gen.signed_real(-3, 1))
-    return {('V' if 'voltage' in s else 'I'): amp, 'w': w0, 'phi': phi, 'deg': deg}
+    out = {('V' if 'voltage' in s else 'I'): amp, 'w': w0, 'phi': phi, 'deg': deg}
+    if s in ('ac_voltage_source', 'ac_current_source') and not deg and draw(st.sampled_from([False, False, True])):
+        out['sin'] = True
+    return out
 
 
 @st.composite
